@@ -2,9 +2,11 @@
 #![allow(dead_code)]
 mod abi;
 mod arena;
+mod asyncs;
 mod count;
 mod hist;
 mod interpose;
+mod lock;
 mod sig;
 mod sigfam;
 mod targets;
@@ -17,6 +19,8 @@ fn main() {
         Some("count") => count::main(&args[2..]),
         Some("abi") => abi::main(&args[2..]),
         Some("sig") => sig::main(&args[2..]),
+        Some("lock") => lock::main(&args[2..]),
+        Some("async") => asyncs::main(&args[2..]),
         _ => { eprintln!("usage: real <hist> ..."); std::process::exit(2) }
     }
 }
